@@ -59,6 +59,12 @@ def eqTrue (a b : Value) : Bool := a ≠ .null && b ≠ .null && a = b
 def nestedLoop (kl kr : Row → Value) (left right : List Row) : List Row :=
   left.flatMap (fun l => (right.filter (fun r => eqTrue (kl l) (kr r))).map (fun r => l ++ r))
 
+/-- `convert_not_in_null_aware` (subquery_to_join.rs): the anti join plus the guard
+`(x IS NOT NULL AND no NULL in S) OR S is empty` -/
+def notInNullAware (kl kr : Row → Value) (left right : List Row) : List Row :=
+  (hashAnti kl kr left right).filter (fun l =>
+    (kl l ≠ .null && !(right.any (fun r => kr r = .null))) || right.isEmpty)
+
 /-- truth value of `x IN (S)` -/
 def inTV (x : Value) (s : List Value) : TV :=
   if s.isEmpty then .f
